@@ -3,6 +3,7 @@ resolution, call graph, guards.  Used by the structural rules; no code is execut
 from __future__ import annotations
 
 import ast
+import copy
 from typing import Any, Iterator
 
 from .model import AnalysisError, ClassInfo, FuncInfo, Program, loc, norm
@@ -447,3 +448,163 @@ def mutation_after_escape(fn: ast.FunctionDef, escapes) -> list[tuple[ast.AST, s
 
     run(fn.body, {})
     return found
+
+
+# ---------------------------------------------------------------------------------------------------------------------
+# syntax-tree normalisation used by the idiom rules: the two commonest behaviour-preserving reshapings - "extract method"
+# and "local alias for an attribute chain" - are undone before a shape is matched.
+
+class _Subst(ast.NodeTransformer):
+    def __init__(self, mapping: dict[str, ast.expr]) -> None:
+        self.mapping = mapping
+
+    def visit_Name(self, n: ast.Name) -> ast.AST:
+        if isinstance(n.ctx, ast.Load) and n.id in self.mapping:
+            return copy.deepcopy(self.mapping[n.id])
+        return n
+
+
+def _simple_arg(e: ast.expr) -> bool:
+    return isinstance(e, (ast.Name, ast.Constant, ast.Attribute, ast.Subscript, ast.Tuple, ast.BinOp, ast.Call)) and len(ast.unparse(e)) < 120
+
+
+def inline_private_helpers(prog: Any, fi: Any, depth: int = 2) -> ast.FunctionDef:
+    """returns a copy of fi's function in which calls `self._h(args)` of private helpers of the same class are replaced by
+    the helper's body (statement calls, `x = self._h(..)`, `return self._h(..)`) or by its returned expression (helpers
+    consisting of one `return`), parameters substituted by the argument expressions. Only for matching shapes."""
+    fn = copy.deepcopy(fi.node)
+    cls = fi.cls
+    if not cls:
+        return fn
+
+    def callee_of(c: ast.AST):
+        if isinstance(c, ast.Call) and isinstance(c.func, ast.Attribute) and isinstance(c.func.value, ast.Name) and c.func.value.id == "self" and c.func.attr.startswith("_"):
+            g = prog.functions.get(f"{cls}.{c.func.attr}")
+            if g is not None and g is not fi and not g.is_setter:
+                return g
+        return None
+
+    def bind(g, c: ast.Call) -> dict[str, ast.expr] | None:
+        params = [p for p in g.params if p != "self"]
+        m: dict[str, ast.expr] = {}
+        for i, a in enumerate(c.args):
+            if i >= len(params) or not _simple_arg(a):
+                return None
+            m[params[i]] = a
+        for k in c.keywords:
+            if k.arg is None or not _simple_arg(k.value):
+                return None
+            m[k.arg] = k.value
+        defaults = g.node.args.defaults
+        for p, d in zip(params[len(params) - len(defaults):], defaults):
+            m.setdefault(p, d)
+        if any(p not in m for p in params):
+            return None
+        return m
+
+    def body_of(g, m) -> list[ast.stmt]:
+        b = [s for s in copy.deepcopy(g.node.body) if not (isinstance(s, ast.Expr) and isinstance(s.value, ast.Constant))]
+        return [_Subst(m).visit(s) for s in b]
+
+    def expand(stmts: list[ast.stmt], d: int) -> list[ast.stmt]:
+        out: list[ast.stmt] = []
+        for s in stmts:
+            for fld in ("body", "orelse", "finalbody"):
+                blk = getattr(s, fld, None)
+                if isinstance(blk, list) and blk and isinstance(blk[0], ast.stmt):
+                    setattr(s, fld, expand(blk, d))
+            if isinstance(s, ast.Try):
+                for hnd in s.handlers:
+                    hnd.body = expand(hnd.body, d)
+            call = None
+            if isinstance(s, ast.Expr):
+                call = s.value
+            elif isinstance(s, (ast.Assign, ast.Return)) and s.value is not None:
+                call = s.value
+            g = callee_of(call) if d > 0 and call is not None else None
+            if g is not None:
+                m = bind(g, call)
+                b = body_of(g, m) if m is not None else None
+                rets = [n for n in ast.walk(ast.Module(body=b or [], type_ignores=[])) if isinstance(n, ast.Return)]
+                if b is not None and isinstance(s, ast.Expr) and (not rets or (len(rets) == 1 and b and b[-1] is rets[0])):
+                    if rets:
+                        b = b[:-1] + ([ast.Expr(value=rets[0].value)] if rets[0].value is not None else [])
+                    out.extend(expand(b, d - 1))
+                    continue
+                if b is not None and len(rets) == 1 and b and b[-1] is rets[0] and rets[0].value is not None:
+                    if isinstance(s, ast.Assign):
+                        out.extend(expand(b[:-1], d - 1))
+                        out.append(ast.copy_location(ast.Assign(targets=s.targets, value=rets[0].value), s))
+                        continue
+                    if isinstance(s, ast.Return):
+                        out.extend(expand(b[:-1], d - 1))
+                        out.append(ast.copy_location(ast.Return(value=rets[0].value), s))
+                        continue
+            out.append(s)
+        return out
+
+    class _ExprInline(ast.NodeTransformer):
+        def visit_Call(self, c: ast.Call) -> ast.AST:
+            self.generic_visit(c)
+            g = callee_of(c)
+            if g is not None:
+                b = [s for s in g.node.body if not (isinstance(s, ast.Expr) and isinstance(s.value, ast.Constant))]
+                if len(b) == 1 and isinstance(b[0], ast.Return) and b[0].value is not None:
+                    m = bind(g, c)
+                    if m is not None:
+                        return _Subst(m).visit(copy.deepcopy(b[0].value))
+            return c
+
+    fn.body = expand(fn.body, depth)
+    for _ in range(depth):
+        fn = _ExprInline().visit(fn)
+    ast.fix_missing_locations(fn)
+    return fn
+
+
+def expand_local_aliases(fn: ast.FunctionDef) -> ast.FunctionDef:
+    """replaces local names that are bound exactly once, by a plain assignment, to an attribute chain rooted at `self`
+    (no call in it) by that chain - and drops the binding. Only for matching shapes."""
+    fn = copy.deepcopy(fn)
+    binds: dict[str, list[ast.Assign]] = {}
+    stores: dict[str, int] = {}
+    for n in ast.walk(fn):
+        if isinstance(n, ast.Name) and isinstance(n.ctx, (ast.Store, ast.Del)):
+            stores[n.id] = stores.get(n.id, 0) + 1
+        if isinstance(n, ast.Assign) and len(n.targets) == 1 and isinstance(n.targets[0], ast.Name):
+            binds.setdefault(n.targets[0].id, []).append(n)
+    params = {a.arg for a in fn.args.args + fn.args.kwonlyargs}
+    mapping: dict[str, ast.expr] = {}
+    for nm, bs in binds.items():
+        if nm in params or stores.get(nm, 0) != 1 or len(bs) != 1:
+            continue
+        v = bs[0].value
+        chain = v
+        ok = True
+        while isinstance(chain, ast.Attribute):
+            chain = chain.value
+        if not (isinstance(chain, ast.Name) and chain.id == "self") or any(isinstance(x, ast.Call) for x in ast.walk(v)):
+            ok = False
+        if ok and isinstance(v, ast.Attribute):
+            mapping[nm] = v
+    if not mapping:
+        return fn
+    # aliases of aliases
+    for _ in range(3):
+        for nm in list(mapping):
+            mapping[nm] = _Subst({k: v for k, v in mapping.items() if k != nm}).visit(copy.deepcopy(mapping[nm]))
+
+    class _Drop(ast.NodeTransformer):
+        def visit_Assign(self, n: ast.Assign) -> Any:
+            if len(n.targets) == 1 and isinstance(n.targets[0], ast.Name) and n.targets[0].id in mapping:
+                return None
+            return self.generic_visit(n)
+
+    fn = _Drop().visit(fn)
+    fn = _Subst(mapping).visit(fn)
+    ast.fix_missing_locations(fn)
+    return fn
+
+
+def normalised(prog: Any, fi: Any) -> ast.FunctionDef:
+    return expand_local_aliases(inline_private_helpers(prog, fi))
